@@ -102,6 +102,9 @@ def prog_features(p):
         f.add("metadata")
     if any(r["k"] == "sub" for r in rels) and any(r["k"] == "tbl" for r in rels) and "unqualified_wildcard" in f:
         f.add("unqualified_wildcard_over_table_and_derived_table")
+    other_scope_bare = {r["n"] for r in rels if r["k"] == "sub"} | ({p["branch2"][0]["n"]} if p["branch2"] else set())
+    if any(r["al"] != "none" and r["al"] in other_scope_bare for r in rels):
+        f.add("alias_equals_bare_name_of_a_table_read_unaliased_in_another_scope")
     if p["branch2"] and any(r["k"] == "tbl" and r["n"] == p["branch2"][0]["n"] and r["s"] != p["branch2"][0]["s"] for r in rels):
         f.add("later_branch_reads_a_table_whose_bare_name_an_earlier_branch_table_of_another_schema_has")
     return sorted(f) or ["none"]
